@@ -1415,10 +1415,10 @@ func (u *vpuCtx) drain() {
 func (u *vpuCtx) run(maxSteps int) {
 	c := u.c
 	r := c.r
-	// 45 % of the schedules add directed duplicates of live HTLCs (exact
+	// 60 % of the schedules add directed duplicates of live HTLCs (exact
 	// duplicates, same-satoshi amounts, same script with another expiry,
 	// same value with another script and expiry)
-	u.dupMode = r.intn(100) < 45
+	u.dupMode = r.intn(100) < 60
 	u.after()
 	if c.cut && r.intn(5) == 0 {
 		c.genDanceCut(r.intn(3) / 2)
@@ -1427,7 +1427,7 @@ func (u *vpuCtx) run(maxSteps int) {
 	for len(c.steps) < maxSteps && c.abort == "" {
 		x := r.intn(1000)
 		switch {
-		case u.dupMode && x >= 400 && x < 490:
+		case u.dupMode && x >= 400 && x < 520:
 			u.genDup()
 		case c.cut && x >= 300 && x < 340 && c.calm():
 			c.genDanceCut(r.intn(2))
